@@ -268,6 +268,9 @@ func (pmt *Payment) calculate() error {
 	}
 
 	for i, l := range pmt.Lines {
+		if l == nil {
+			continue
+		}
 		l.Index = i + 1
 		if err := l.calculate(pmt.Currency, pmt.ExchangeRates); err != nil {
 			return validation.Errors{
